@@ -1,6 +1,7 @@
 (** Loader.restore_placement on top of the scheduler model (Sched/Tree.v): the decision of Master/Restore.v with
     Server.restore / Server.put being [srv_restore] / [srv_put] on the cell as it is when the node's turn comes.
-    (A schedule-once instance that cannot be put back is removed with Events.remove_app.)  Model file: no proofs (they are in
+    (A schedule-once instance that cannot be put back is removed with Events.remove_app; an instance that was already
+    restored under an earlier server is put on this one as well, see [clear_server].)  Model file: no proofs (they are in
     RestoreSchedP.v); nothing in Sched/ is changed. *)
 From Coq Require Import ZArith QArith List Bool Lia.
 From RecordUpdate Require Import RecordSet.
@@ -26,19 +27,39 @@ Record snode := mkSN { sn_app : Z; sn_identity : option Z; sn_expires : Z; sn_ct
 Definition sched_verbatim (presence : option Z) (n : snode) : bool :=
   match presence with Some pt => negb (Z.eqb pt 0) && Z.leb pt (sn_ctime n) | None => false end.
 
-(** one node of /placement/<s> *)
+(** Python's Server.put / Server.restore never look at app.server: for an instance that still names a server (it was
+    restored under an earlier server of the same load) the put goes ahead, the new server lists the instance too and
+    app.server is overwritten, while the earlier server keeps listing it and keeps its demand deducted - until the
+    duplicate pass of restore_placements removes it from both.  Sched/Tree.v [put_guard] refuses such an instance
+    ("never the case at a call site" - true of every other call site), so the field is cleared on the record the
+    guard sees; nothing else of the cell is touched, and nothing at all when the instance names no server. *)
+Definition clear_server (c : cell) (aname : Z) : cell :=
+  match get_app aname (c_apps c) with
+  | Some a => match a_server a with
+              | Some _ => c_upd_app aname (fun x => x <| a_server := None |>) c
+              | None => c
+              end
+  | None => c
+  end.
+
+(** one node of /placement/<s>.  When the put is refused (capacity, label, traits, affinity limit, lifetime) the
+    instance is as Python leaves it: still naming the earlier server, with the node's expiry assigned by
+    Server.restore *)
 Definition restore_node (s : Z) (presence : option Z) (ri : bool) (c : cell) (n : snode) : cell * raction :=
   match get_app (sn_app n) (c_apps c) with
   | None => (c, RDeleteStale)
   | Some a =>
       let ident := if ri then sn_identity n else None in
       let force c' := match ident with Some i => force_identity c' (sn_app n) i | None => c' end in
+      let c0 := clear_server c (sn_app n) in
       if sched_verbatim presence n then
-        let '(c', ok) := srv_restore c s (sn_app n) (Some (sn_expires n)) in
+        let '(c', ok) := srv_restore c0 s (sn_app n) (Some (sn_expires n)) in
         if ok then (force c', RRestore (sn_expires n) ident)
-        else if a_once a then (remove_app c' (sn_app n), RDropped true) else (c', RDropped false)
+        else
+          let cf := c_upd_app (sn_app n) (fun x => x <| a_expiry := Some (sn_expires n) |>) c in
+          if a_once a then (remove_app cf (sn_app n), RDropped true) else (cf, RDropped false)
       else if a_once a then (remove_app c (sn_app n), RDropped true)
-      else match srv_put c s (sn_app n) with
+      else match srv_put c0 s (sn_app n) with
            | Some c' => (force c', RPutFresh ident)
            | None => (c, RDropped false)
            end
